@@ -118,6 +118,18 @@ func (s *Session) verifyFunc(fn *ssa.Function, c *Contract) (vc *FnVC, err error
 			fr.unescaped[t.S] = true
 		}
 	}
+	{
+		// variables captured by reference live in cells of their own: distinct variables, distinct cells
+		var cells []string
+		for _, fv := range fn.FreeVars {
+			if t, ok := fr.vals[fv]; ok && fvIsAddr(fv) {
+				cells = append(cells, t.S)
+			}
+		}
+		if len(cells) > 1 {
+			vc.assume(Term{"(distinct " + strings.Join(cells, " ") + ")", SBool})
+		}
+	}
 	for _, fv := range fn.FreeVars {
 		// the same for a struct pointer captured by value
 		if t, ok := fr.vals[fv]; ok {
